@@ -349,6 +349,11 @@ func (fm *Server) mount(ctx context.Context, mountpoint string, labels map[strin
 		return nil
 	}
 
+	if fm.curFs == nil {
+		// no Init has constructed a filesystem yet (Init marks the manager ready even when it fails)
+		return fmt.Errorf("filesystem is not initialized")
+	}
+
 	err := fm.curFs.Mount(ctx, mountpoint, labels)
 	if err != nil {
 		log.G(ctx).WithError(err).Errorf("failed to mount stargz")
